@@ -65,7 +65,7 @@ func execC19(r *Run) {
 	// number of increments/witnesses still to come bounds how far the clock may
 	// move: values near 2^64 are drawn so that the unbounded reference clock never
 	// exceeds 2^64-1 (DESIGN 5)
-	room := uint64(2*total + 4)
+	room := uint64(8*total + 8) // a witness of "cur+5" moves the clock by up to 6
 	seq := 0
 	var hist []*c19Op
 	resolve := func(sym string) uint64 {
